@@ -14,7 +14,7 @@ import (
 // and ToXML(...) used in case of netconf are altered.
 //   - ToProtoDeletes(...) returns only the root path.
 //   - ToXML(...) returns the TargetSource generated etree.Document, but sets the
-//     replace flag on the root element
+//     replace flag on its top-level elements
 type TargetSourceReplace struct {
 	target.TargetSource
 }
@@ -44,7 +44,10 @@ func (t *TargetSourceReplace) ToXML(onlyNewOrUpdated bool, honorNamespace bool, 
 	if err != nil {
 		return nil, err
 	}
-	// Add replace operation to the root element
-	utils.AddXMLOperation(&et.Element, utils.XMLOperationReplace, operationWithNamespace, useOperationRemove)
+	// Add the replace operation to the top-level elements: the document itself has no element that would be
+	// serialised, an attribute on it never reaches the device
+	for _, e := range et.ChildElements() {
+		utils.AddXMLOperation(e, utils.XMLOperationReplace, operationWithNamespace, useOperationRemove)
+	}
 	return et, nil
 }
